@@ -85,7 +85,9 @@ class G:
 
     def F(self, odd=False):
         if self.big and self.coin(0.4):
-            return 33      # with N ~ 300-1200: more than 2**16 elements
+            # with N ~ 300-1200: more than 2**16 elements; 65 / 129 bins:
+            # STFT sizes 128 / 256
+            return int(self.choice([33, 33, 65, 129]))
         if odd:
             return int(self.choice([1, 3, 3, 5, 7] if self.thorough else [1, 3, 3, 5]))
         return int(self.choice([1, 2, 3, 4]))
@@ -187,7 +189,11 @@ def _gen_mm_fit(g, kind, method=None, D=None, iterations=None):
             [[-1], [-1], [-3], [-3, -1], -2, [-2]])
     else:
         opts['weight_constant_axis'] = g.choice([[-1], [-1], -2])
-    if kind in models.COMPLEX_OBS:
+    if kind == 'cwmm' and g.coin(0.2):
+        # strongly directional data: concentrations up to the clipping bound
+        a['obs'] = g.arr('cconcentrated', lead + [N, D],
+                         noise=float(g.choice([0.2, 0.03, 0.01])))
+    elif kind in models.COMPLEX_OBS:
         a['obs'] = g.arr('cnormal', lead + [N, D], dtype=g.cdtype())
     elif kind == 'vmfmm':
         a['obs'] = g.arr('normal', lead + [N, D], dtype='float64')
@@ -471,7 +477,10 @@ def gen_dist_fit(g, kind, D=None):
     if kind == 'cacg' and g.coin(0.85):
         lead = []    # fit() raises TypeError for any leading axis
     a = {'kind': kind, 'D': D, 'opts': {}}
-    if kind in ('ccsg', 'watson', 'bingham', 'cacg'):
+    if kind == 'watson' and g.coin(0.25):
+        a['y'] = g.arr('cconcentrated', lead + [N, D],
+                       noise=float(g.choice([0.2, 0.03, 0.01])))
+    elif kind in ('ccsg', 'watson', 'bingham', 'cacg'):
         a['y'] = g.arr('cnormal', lead + [N, D], dtype=g.cdtype())
     else:
         a['y'] = g.arr('normal', lead + [N, D], dtype=g.rdtype())
@@ -536,6 +545,32 @@ class _DistLogPdf:
         if a['other_data']:
             spec['seed'] = a['seed']
         return m.value.log_pdf(ctx.arr(spec))
+
+
+@entry('watson.direct', weight=1, group='distribution')
+class _WatsonDirect:
+    """A ComplexWatson model built by the caller (any concentration, also
+    beyond the range the trainers produce): log_pdf / log_norm."""
+    @staticmethod
+    def gen(g):
+        D = g.D()
+        return {'mode': g.arr('cconcentrated', [1, D], noise=0.0),
+                'y': g.arr('cnormal', [g.N(), D], dtype=g.cdtype()),
+                'concentration': float(g.choice([0.5, 20.0, 499.0, 690.0, 720.0,
+                                                 900.0])),
+                'which': g.choice(['log_pdf', 'log_norm', 'pdf'])}
+
+    @staticmethod
+    def run(ctx, a):
+        from pb_bss.distribution import ComplexWatson
+        from pb_bss.distribution.complex_watson import normalize_observation
+        m = ComplexWatson(mode=ctx.arr(a['mode'])[0],
+                          concentration=a['concentration'])
+        if a['which'] == 'log_norm':
+            return m.log_norm()
+        y = normalize_observation(ctx.arr(a['y']))
+        y.setflags(write=False)
+        return m.log_pdf(y) if a['which'] == 'log_pdf' else m.pdf(y)
 
 
 @entry('cacg.from_covariance', weight=2, group='distribution')
@@ -754,15 +789,24 @@ class _InitDeflation:
              'pf': g.coin(), 'eps': float(g.choice([0, 1e-3]))}
         if g.coin(0.4):
             a['sal'] = g.arr('uniform', [257, T], low=0.1, high=1.0)
+        if g.coin(0.4):
+            # a caller-supplied similarity transform handing back an array
+            # the caller owns (values partly outside [0, 1])
+            a['transform'] = g.arr('uniform', [257, T], low=0.0, high=1.3)
         return a
 
     @staticmethod
     def run(ctx, a):
         from pb_bss.initializer import deflation
+        transform = None
+        if 'transform' in a:
+            own = ctx.arr(a['transform'])
+            transform = lambda similarity, saliencies: own   # noqa
         return deflation.deflationSeed(
             ctx.arr(a['y']), a['K'],
             saliencies=ctx.arr(a['sal']) if 'sal' in a else None,
-            permutation_free=a['pf'], eps=a['eps'])
+            permutation_free=a['pf'], eps=a['eps'],
+            similarity_transform=transform)
 
 
 # --------------------------------------------------------------------------
